@@ -566,7 +566,7 @@ func TestC01_Bound(t *testing.T) {
 		if !c.Plugin {
 			c.PluginKind = ""
 		}
-		c.Source = rp.Pick(rt, "source", "fresh", "fresh", "descriptor-nearmiss", "descriptor-nearmiss", "metadata-nearmiss", "metadata-nearmiss", "reassembled", "reassembled", "wrong-payload-type", "bytemutated", "bytemutated")
+		c.Source = rp.Pick(rt, "source", "fresh", "fresh", "descriptor-nearmiss", "descriptor-nearmiss", "metadata-nearmiss", "metadata-nearmiss", "reassembled", "reassembled", "wrong-payload-type", "payload-size-lies", "payload-size-lies", "bytemutated", "bytemutated")
 		descNearMiss := func() {
 			p := &c.Presented
 			if kind == "oci" {
@@ -668,6 +668,39 @@ func TestC01_Bound(t *testing.T) {
 			e2 := buildEnv(c.Format, sB, art.payload(), envb.PayloadType, c.Plugin)
 			e3 := buildEnv(c.Format, sA, art.payload(), envb.PayloadType, c.Plugin) // same content, different signature value
 			c.Envelope, c.Detail = reassemble(rt, c.Format, [][]byte{e0, e1, e2, e3}, sA.twinLeaf.Cert)
+		case "payload-size-lies":
+			// a validly signed payload that names the presented artifact's digest and media type but
+			// another size - off by a few, a fraction, a value that only differs beyond 2^53 - and, for
+			// blobs, also an EMPTY presented blob whose payload claims a size (0 is a size, not "unstated")
+			p := &c.Presented
+			if kind == "blob" && rapid.IntRange(0, 2).Draw(rt, "emptyBlob") == 0 {
+				p.Blob = []byte{}
+				ai, _ := envb.AlgFor(sA.chain.Leaf().Key.Public())
+				p.Digest, p.Size = kit.OwnDigest(hashName(ai), p.Blob), 0
+			}
+			digestOfPresented := p.Digest
+			if kind == "blob" {
+				ai, _ := envb.AlgFor(sA.chain.Leaf().Key.Public())
+				digestOfPresented = kit.OwnDigest(hashName(ai), p.Blob)
+			}
+			presentedSize := p.Size
+			if kind == "blob" {
+				presentedSize = int64(len(p.Blob))
+			}
+			sizeToken := rp.Pick(rt, "sizeToken", fmt.Sprint(presentedSize+7), fmt.Sprint(presentedSize+1), fmt.Sprintf("%d.5", presentedSize), fmt.Sprintf("%d.25e0", presentedSize), fmt.Sprintf("%de1", presentedSize+1))
+			if kind == "oci" && c.Format == envb.MTCOSE && rapid.IntRange(0, 3).Draw(rt, "hugeSize") == 0 {
+				p.Size, sizeToken = 1<<53, "9007199254740993" // presented 2^53, signed 2^53+1
+			}
+			ann, _ := json.Marshal(art.ann)
+			if art.ann == nil {
+				ann = []byte("null")
+			}
+			payload := fmt.Sprintf(`{"targetArtifact":{"mediaType":%q,"digest":%q,"size":%s,"annotations":%s}}`, art.mediaType, digestOfPresented, sizeToken, ann)
+			if art.ann == nil {
+				payload = fmt.Sprintf(`{"targetArtifact":{"mediaType":%q,"digest":%q,"size":%s}}`, art.mediaType, digestOfPresented, sizeToken)
+			}
+			c.Envelope = buildEnv(c.Format, sA, []byte(payload), envb.PayloadType, c.Plugin)
+			c.Detail = "size=" + sizeToken
 		case "wrong-payload-type":
 			switch rp.Pick(rt, "wrongType", "content-type", "other-shape", "descriptor-at-top", "empty-object") {
 			case "content-type":
